@@ -57,6 +57,7 @@ type Thread struct {
 	Blocks    int // times it became blocked
 	Yields    int
 	LastKind  Kind
+	KindCount [12]int // points passed per kind
 	state     tstate
 	blockAddr uintptr
 	wake      chan struct{}
@@ -315,6 +316,9 @@ func Point(k Kind, addr uintptr) {
 	}
 	t.Steps++
 	t.LastKind = k
+	if int(k) < len(t.KindCount) {
+		t.KindCount[k]++
+	}
 	s.total++
 	if s.total > s.budget {
 		var sb strings.Builder
